@@ -1,12 +1,19 @@
 import ChibiVerif.Driver.LexCmd
 import ChibiVerif.Model.C19Bridge
+import ChibiVerif.Model.C19Convert
 
 /-! second sub-command of `drv_c19`: a whole `chibicc -E` run over the models (Model/C19Bridge.lean `passText`: `tokenize`,
     `preprocess2` of Model/PP.lean from the table of `init_macros`, `print_tokens`).  Characters are decimal code points.
   pass <fuel> <file: cp,cp,…> <cps of the text>  → `ok <cps of the -E text>` | `err lex <name>` | `err pp <name>`
   region <cps of a text>                         → `inert=<b> valid=<b> tokens=<n> hashbol=<n> initnames=<n>` for the token list
                                                    `tokenize` reads from the text (`inertInit`, `validText`: the hypotheses of
-                                                   C19_idempotent; how many tokens break each half) | `err lex <name>` -/
+                                                   C19_idempotent; how many tokens break each half) | `err lex <name>`
+  cc1 <fuel> <file: cp,cp,…> <cps of the text>   → the token list `parse` receives when cc1 compiles the text (Model/C19Convert.lean
+                                                   `cc1Tokens`: tokenize, preprocess2 from init_macros, convert_pp_tokens; libc's verdict
+                                                   on pp-numbers is not modelled: every pp-number counts as a number):
+                                                   `ok K:S:cp,cp,…|…`  K ∈ I P K S N (kind for parse)  S ∈ I P S C N (kind tokenize gave)
+                                                   | `err lex <name>` | `err pp <name>`
+  conv <cps of the text>                         → the same without preprocess2 (tokenize, convert_pp_tokens) -/
 namespace ChibiVerif.Driver
 open ChibiVerif ChibiVerif.C19Bridge
 
@@ -47,13 +54,42 @@ def passLine (ws : List String) : String :=
         s!"inert={b01 (inertInit ts)} valid={b01 (validText ts)} tokens={ts.length} hashbol={hashes} initnames={names}"
   | _ => "bad-op"
 
+def showCKind : C19Convert.CKind → String
+  | .ident => "I" | .punct => "P" | .keyword => "K" | .str => "S" | .num => "N"
+
+def showCToks (cs : List C19Convert.CTok) : String :=
+  "ok " ++ "|".intercalate (cs.map fun c => s!"{showCKind c.kind}:{showKind c.src}:{showCps c.text ","}")
+
+def cc1Line (ws : List String) : String :=
+  match ws with
+  | "cc1" :: fuel :: file :: r =>
+    match fuel.toNat?, parseCps ((file.splitOn ",").filter (· ≠ "")), parseCps r with
+    | some n, some f, some text =>
+      match C19Convert.cc1Tokens (fun _ => true) n (str f) text with
+      | .ok cs => showCToks cs
+      | .error (.pass (.lex e)) => "err lex " ++ showErr e
+      | .error (.pass (.pp e)) => "err pp " ++ ppErrName e
+      | .error (.conv (.invalidNumber a)) => "err num " ++ showCps a ","
+    | _, _, _ => "bad-op"
+  | "conv" :: r =>
+    match parseCps r with
+    | none => "bad-op"
+    | some text =>
+      match Lex.lex text with
+      | .error e => "err lex " ++ showErr e
+      | .ok ts =>
+        match C19Convert.convertPP (fun _ => true) ts with
+        | .ok cs => showCToks cs
+        | .error (.invalidNumber a) => "err num " ++ showCps a ","
+  | _ => passLine ws
+
 partial def passCmdLoop (h : IO.FS.Stream) : IO UInt32 := do
   let line ← h.getLine
   if line.isEmpty then return 0
   let ws := (line.trimAscii.toString.splitOn " ").filter (· ≠ "")
   if ws.isEmpty then passCmdLoop h
   else
-    IO.println (passLine ws)
+    IO.println (cc1Line ws)
     passCmdLoop h
 
 def passMain : IO UInt32 := do passCmdLoop (← IO.getStdin)
